@@ -2,7 +2,7 @@
 
 UNIT_NOTES = {
     "rawblock": "C06 RawBlock::new: the receipts closure and the transactions closure lifted (N10-lift, lift_wrap) and proved field by field against the stored TxReceiptED / TxED; alloy consensus types as plain records with alloy's public field names",
-    "txstore": "C06/C05 tail of add_tx_to_block's closure (N10-lift): values handed to set_tx_receipt (cumulative gas, first log index, hash, index, nonce, gas limit) and the advance of LastBlockInfo (waiting count, gas, log index); the EVM run before it is dropped (its output and trace are parameters)",
+    "txstore": "C06/C05/C08 finalise_block's closure (N10-lift): what is stored for the block and in which order; tail of add_tx_to_block's closure (N10-lift): values handed to set_tx_receipt (cumulative gas, first log index, hash, index, nonce, gas limit) and the advance of LastBlockInfo (waiting count, gas, log index); the EVM run before it is dropped (its output and trace are parameters)",
     "rawtx": "C08 what a signed raw transaction turns into: TxInfo::{from_inscription, from_raw_transaction, from_saved_transaction, to_address_optional} and get_info_from_raw_tx on their real bodies (alloy RLP decoding, signature recovery and keccak as uninterpreted functions of their inputs)",
     "codec_trace": "C14 record codec of the recursive TraceED (enc / dec read off the real impls, N37); Vec<TraceED> is an assumed leaf here",
     "dbslot": "C09 engine database slot: the three closures that run the EVM (read_contract, read_contract_multi, add_tx_to_block) lifted into functions; mem::take ... mem::swap puts the database back on every exit path",
@@ -131,14 +131,14 @@ PROPS["C05"] = {
 PROPS["C06"] = {
     "units": ["dbfacade", "scalars", "engine", "txstore", "rawblock"],
     "kani": [],
-    "level_text": "Proof on Brc20ProgDatabase::set_tx_receipt: after Ok the transaction row, the receipt row, the (block,index)->hash row and the inscription->hash row all carry the same hash, block hash, block number and index; set_block_hash: number->hash and hash->number invert each other; LogED::new_vec: log indexes run contiguously from the start index and every log carries its transaction's hash, index, block hash and number; get_block_tx_count = number of (block,index) rows of the block; generate_block on its real body: the block lists exactly the transaction hashes recorded under (block, 0), (block, 1), .. in index order, its count field is their number, it carries the number and hash it was generated for, its parent is the recorded hash of the previous block (zero for block 0) and a missing parent is an error; add_tx_to_block stores transaction, receipt and trace under get_tx_hash(tx, account nonce) (site precondition) and get_tx_hash is the keccak of sender, nonce, target, data (functional postcondition); the tail of add_tx_to_block's closure (lifted, unit txstore): the receipt is stored with the block's running gas total INCLUDING this transaction as cumulative gas and with the block's running log count BEFORE it as first log index, under the hash / index / number / nonce / gas limit of this transaction; afterwards the running totals have advanced by exactly this transaction (one more waiting transaction, gas, logs), and the receipt handed back is the one the store serves; the two closures of RawBlock::new (lifted, unit rawblock): a raw receipt carries the stored receipt's cumulative gas, status, logs and bloom, a raw transaction the stored nonce, target, value, input, chain id, gas limit and signature; eth_getLogs order (C18).",
+    "level_text": "Proof on Brc20ProgDatabase::set_tx_receipt: after Ok the transaction row, the receipt row, the (block,index)->hash row and the inscription->hash row all carry the same hash, block hash, block number and index; set_block_hash: number->hash and hash->number invert each other; LogED::new_vec: log indexes run contiguously from the start index and every log carries its transaction's hash, index, block hash and number; get_block_tx_count = number of (block,index) rows of the block; generate_block on its real body: the block lists exactly the transaction hashes recorded under (block, 0), (block, 1), .. in index order, its count field is their number, it carries the number and hash it was generated for, its parent is the recorded hash of the previous block (zero for block 0) and a missing parent is an error; add_tx_to_block stores transaction, receipt and trace under get_tx_hash(tx, account nonce) (site precondition) and get_tx_hash is the keccak of sender, nonce, target, data (functional postcondition); the tail of add_tx_to_block's closure (lifted, unit txstore): the receipt is stored with the block's running gas total INCLUDING this transaction as cumulative gas and with the block's running log count BEFORE it as first log index, under the hash / index / number / nonce / gas limit of this transaction; afterwards the running totals have advanced by exactly this transaction (one more waiting transaction, gas, logs), and the receipt handed back is the one the store serves; finalise_block's closure (lifted, unit txstore): the block record stored under the number is the one generated for exactly the supplied hash / number / timestamp and the gas total of the block being built, the raw block is the raw form of that record, and the hash - which is what makes the block visible - is recorded last, after the record, the raw block and the pruning of the pool; the two closures of RawBlock::new (lifted, unit rawblock): a raw receipt carries the stored receipt's cumulative gas, status, logs and bloom, a raw transaction the stored nonce, target, value, input, chain id, gas limit and signature; eth_getLogs order (C18).",
     "level_note": COMMON_TRUST + "Narrow. Rule N29 keeps only the index arguments of TxReceiptED::new / TxED::new (the other arguments are revm/alloy values). NOT covered: bloom and merkle root (dropped from generate_block by N13: uninterpreted libraries), the header literal of RawBlock::new and the RLP encoding itself (alloy), the generate_raw_block body.",
     "assumptions": ["N29: constructors reduced to their index arguments; BlockResponseED::new assumed to store hash / count / number / transactions / parent hash in the fields of that name", "generate_raw_block not under contract", "U128ED compares as its encoding does (Kani u128ed_order)"],
 }
 PROPS["C08"] = {
-    "units": ["engine", "dbfacade", "rawtx"],
+    "units": ["engine", "dbfacade", "rawtx", "txstore"],
     "kani": [],
-    "level_text": "Proof on the real get_info_from_raw_tx (an undecodable transaction is rejected, one whose chain id is absent or not the configured one is ignored, otherwise the result is exactly the decoded transaction: signer = address recovered from the signing hash, nonce = signed nonce, hash = keccak of the raw bytes or the signing hash as the fork schedule selects) and the three TxInfo constructors; on the real add_raw_tx_to_block control skeleton: a transaction is parked only with account_nonce < nonce < account_nonce + 10, executed first only with nonce == account nonce (or none), every drained transaction is younger than 10 blocks and receives transaction index = index of the call + receipts produced so far (loop invariant), nonces advance by one per receipt and every drained transaction carries exactly the account's next nonce (site precondition over what the pool lookup returned); drain completeness over a ghost model of the pending pool (map (signer, nonce) -> parked transaction, answered by the lookup site, updated at the removal site): whenever the call returns receipts, nothing is left waiting at the signer's next nonce - the loop ran every consecutive successor or dropped an expired one - and the entry removed is the one that was looked up; clear_txpool drops a parked transaction iff it has no arrival block or arrived >= 10 blocks ago and leaves every other one untouched.",
+    "level_text": "Proof on the real get_info_from_raw_tx (an undecodable transaction is rejected, one whose chain id is absent or not the configured one is ignored, otherwise the result is exactly the decoded transaction: signer = address recovered from the signing hash, nonce = signed nonce, hash = keccak of the raw bytes or the signing hash as the fork schedule selects) and the three TxInfo constructors; on the real add_raw_tx_to_block control skeleton: a transaction is parked only with account_nonce < nonce < account_nonce + 10, executed first only with nonce == account nonce (or none), every drained transaction is younger than 10 blocks and receives transaction index = index of the call + receipts produced so far (loop invariant), nonces advance by one per receipt and every drained transaction carries exactly the account's next nonce (site precondition over what the pool lookup returned); drain completeness over a ghost model of the pending pool (map (signer, nonce) -> parked transaction, answered by the lookup site, updated at the removal site): whenever the call returns receipts, nothing is left waiting at the signer's next nonce - the loop ran every consecutive successor or dropped an expired one - and the entry removed is the one that was looked up; every successful finalise prunes the pool for the finalised height before the block becomes visible (finalise_block's closure, lifted in unit txstore); clear_txpool drops a parked transaction iff it has no arrival block or arrived >= 10 blocks ago and leaves every other one untouched.",
     "level_note": COMMON_TRUST + "Closures are guarded sites (N10); revm's own nonce check, signature recovery, chain-id filter (alloy) and txpool_content are outside. Termination of the drain loop is not proved (it ends when the pool has no next nonce).",
     "assumptions": ["nonces, transaction indexes and arrival blocks are < 2^63", "drain-loop termination not proved", "pool invariant assumed at entry: nothing is parked at or beyond account nonce + 10 (parking precondition + monotone account nonces)", "a parked transaction is stored under its own signer and nonce (pool lookup shim)"],
 }
